@@ -885,7 +885,11 @@ class Sampler():
                         enumerate(blobs[0])]
                 else:
                     self.blobs_dtype = np.array([blobs[0][0]]).dtype
-            blobs = np.squeeze(np.array(blobs, dtype=self.blobs_dtype))
+            blobs = np.array(blobs, dtype=self.blobs_dtype)
+            # Drop axes of length one but always keep the batch axis, even if
+            # the batch contains a single point.
+            blobs = np.squeeze(blobs, axis=tuple(
+                i for i in range(1, blobs.ndim) if blobs.shape[i] == 1))
         else:
             log_l = np.array(result)
             blobs = None
